@@ -195,7 +195,7 @@ pub fn port() -> BoxedStrategy<PortSpec> {
     prop_oneof![
         3 => Just(PortSpec::None),
         1 => Just(PortSpec::ExplicitDefault),
-        3 => prop_oneof![Just(8080u16), Just(1), Just(65535), Just(8443), 1024u16..65535].prop_map(PortSpec::Other),
+        3 => prop_oneof![Just(8080u16), Just(1), Just(65535), Just(8443), Just(80), Just(443), 1024u16..65535].prop_map(PortSpec::Other),
     ]
     .prop_map(|p| p)
     .boxed()
